@@ -17,8 +17,11 @@ def showCEAErr : CEAErr → String
   | .unexpected => "unexpected"
 
 /-- the CEA the harness' scripted peer sends for a reaction letter: its class for the model -/
-def reactionClass (b : String) : Option (Option String) :=   -- some none: success; some (some c): failing with class c
-  if b = "S" ∨ b = "Z" then some none      -- Z: success CEA with an application answer right behind it
+def reactionClass (b : String) (am : Nat := 0) : Option (Option String) :=   -- some none: success; some (some c): failing with class c
+  -- Y: a success CEA sharing only application 16777999: common exactly when the connection's
+  -- dictionary (the client's own, am=3) knows that application
+  if b = "Y" then (if am = 3 then some none else some (some "application"))
+  else if b = "S" ∨ b = "Z" ∨ b = "C" then some none   -- Z: success CEA with an application answer right behind it; C: the peer's own CER and an answer first
   else if b = "F" then some (some "failedrc:5012")
   else if b = "M" then some (some "missinghost")
   else if b = "A" then some (some "application")
@@ -69,7 +72,7 @@ def judgeDial (d : DictRt) (R cfgK wf : Nat) (behTok postTok : String) (la : Lis
         | _ =>
           let b := beh.getD (k - 1) "N"
           if b = "D" then go fuel (k + 1) (stepAll s1 [.peerClose, .timer]) cls
-          else match reactionClass b with
+          else match reactionClass b am with
             | some none => (stepAll s1 [.cea .success, .takeErrc], cls)
             | some (some c) => (stepAll s1 [.cea .failing, .takeErrc], c)
             | none => go fuel (k + 1) (stepAll s1 [.timer]) cls
@@ -102,6 +105,11 @@ def judgeDial (d : DictRt) (R cfgK wf : Nat) (behTok postTok : String) (la : Lis
       acct := [u C.acctApp 3]
       vsa := [grp [u C.vendorId 10415, u C.authApp 16777251], grp [u C.vendorId 10415, u C.authApp 16777238],
               grp [u C.vendorId 10415, u C.acctApp 16777251]] }
+    else if am = 3 then {
+      supportedVendor := [u C.supportedVendor 10415]
+      auth := []
+      acct := []
+      vsa := [grp [u C.vendorId 10415, u C.authApp 16777999]] }
     else if am = 2 then {
       supportedVendor := []
       auth := [u C.authApp 4]
@@ -168,7 +176,7 @@ def judgeWD (d : DictRt) (R : Nat) (behTok : String) (impl : List String) : Judg
         match st.pc with
         | .writing _ =>
           let w := stepAll st [.writeOk]
-          if b = "A" ∨ b = "E" ∨ b = "L" ∨ b = "V" ∨ b = "O" then stepAll w [.dwaOk, .ack]
+          if b = "A" ∨ b = "E" ∨ b = "L" ∨ b = "V" ∨ b = "O" ∨ b = "K" then stepAll w [.dwaOk, .ack]
           else if b = "T" then stepAll w [.dwaOk, .dwaOk, .dwaOk, .ack]
           else if b = "F" then stepAll w [.dwaFail, .rtTimer]
           else stepAll w [.rtTimer]
@@ -186,7 +194,7 @@ def judgeWD (d : DictRt) (R : Nat) (behTok : String) (impl : List String) : Judg
     if iCycles.any (· > R + 1) then fails := fails ++ ["C13:more-dwrs-than-budget-in-one-cycle"]
     if (kv impl "same").getD "1" ≠ "1" then fails := fails ++ ["C13:dwr-identity-differs"]
     -- a cycle whose script contains an answer must not end in a close
-    let anyAnswered := cycles.all (fun c => c.any (fun b => b = "A" ∨ b = "E" ∨ b = "L" ∨ b = "V" ∨ b = "O" ∨ b = "T"))
+    let anyAnswered := cycles.all (fun c => c.any (fun b => b = "A" ∨ b = "E" ∨ b = "L" ∨ b = "V" ∨ b = "O" ∨ b = "K" ∨ b = "T"))
     if anyAnswered ∧ iClosed = 1 then fails := fails ++ ["C13:responsive-peer-disconnected"]
     if ¬ anyAnswered ∧ sEnd.closedByWD ∧ iClosed = 0 then fails := fails ++ ["C13:silent-peer-not-disconnected"]
     if iCycles ≠ counts ∧ fails.isEmpty then fails := fails ++ ["C13:dwr-count-per-cycle-differs"]
